@@ -847,6 +847,16 @@ func (fx *fnExec) evalCall(x ECall, env *SpecEnv) SV {
 		ne := env.clone()
 		ne.cur = env.loopPre
 		return fx.evalSpec(x.Args[0], ne)
+	case "entry_elem":
+		// entry_elem(s, i): element i (evaluated NOW) of slice s as it was when the enclosing loop was first reached
+		if env.loopPre == nil {
+			panic(vcErr("entry_elem(...) is only meaningful in a loop invariant"))
+		}
+		ne := env.clone()
+		ne.cur = env.loopPre
+		sv := fx.evalSpec(x.Args[0], ne)
+		iv := fx.evalSpec(x.Args[1], env)
+		return fx.specIndex(sv, iv, ne)
 	case "heap_unchanged_except", "only_fresh_modified", "entry_unchanged_except":
 		// frame over all heaps whose name starts with the given prefix
 		pre, ok := x.Args[0].(EStr)
